@@ -42,6 +42,10 @@ func C07(r *Run) *core.Report {
 		}
 	}
 	rep.MinCount("C07.Q4", "coverage obligations for Range and the copy routine", n, 6)
+	// Q5: 'each key once' needs one entry per key: keys that compare equal hash equal (C10.H), and the entries a
+	// traversal collected are not rewritten under it (C03/C04.P2)
+	n5 := borrow(rep, C10(r), "C07.Q5", "C10.H1", "C10.H2", "C10.H3", "C10.H4", "C10.H7")
+	rep.MinCount("C07.Q5", "premise obligations (one entry per key, entries immutable)", n5, 6)
 	return rep
 }
 
